@@ -301,6 +301,12 @@ def _http_block(srv):
         seq = [e for e in p.events if e.kind in ("call", "drop")]
         drops = [i for i, e in enumerate(seq) if (e.kind == "drop" and _is_conn(ex, e.args[0], cap)) or (e.kind == "call" and re.search(r"mem::drop::<ConnectionState>$", e.callee))]
         polls = [i for i, e in enumerate(seq) if e.kind == "call" and re.search(r"Future>::poll$", e.callee)]
+        # the call is processed *by this future* - the one that holds the permit and that hyper drops when the peer goes away: handing it to a task of its own
+        # (tokio::spawn + awaiting the JoinHandle) would let the handler run on after the slot was given back
+        detached = [e for e in seq if e.kind == "call" and e.callee.startswith("tokio::spawn::<")]
+        foreign = [seq[i].callee for i in polls if "call_with_service" not in seq[i].callee]
+        if detached or foreign:
+            viol.append(pc)
         answered = not ex.feasible(list(p.pc) + [z3.Not(ready)]) and bool(polls)
         if answered:
             reach["answered"].append(pc)
@@ -427,15 +433,15 @@ def obligations(tier, seed):
     out = []
     hist = dict(scenario="c11_limits", vars={}, fixed={"limit": 2}, region=z3.BoolVal(True))
 
-    def emit(name, kind, bodies, viol, reach, bad, desc, bounds, keydetail):
+    def emit(name, kind, bodies, viol, reach, bad, desc, bounds, keydetail, replay=None):
         bodies = [x.name for x in (bodies if isinstance(bodies, list) else [bodies]) if x is not None]
-        reach_l = list(reach.values()) if isinstance(reach, dict) else [reach]
+        reach_l = R.live_reach(viol, reach, bad)
         if bad or not all(reach_l):
             out.append(R.Result(engine="mirsym", name=name, kind=kind, status="unsupported" if bad else "vacuous",
                                 detail=str(bad[:1] or ({k: len(v) for k, v in reach.items()} if isinstance(reach, dict) else "no path"))[:300], bodies=bodies))
             return
         q = [v if isinstance(v, z3.ExprRef) else z3.BoolVal(bool(v)) for v in viol]
-        out.append(R.decide(name, kind, z3.Or(*q) if q else z3.BoolVal(False), [z3.Or(*v) for v in reach_l], bodies=bodies, desc=desc, bounds=bounds, keydetail=keydetail, replay=hist))
+        out.append(R.decide(name, kind, z3.Or(*q) if q else z3.BoolVal(False), [z3.Or(*v) for v in reach_l], bodies=bodies, desc=desc, bounds=bounds, keydetail=keydetail, replay=replay or hist))
     bs, viol, reach, bad = _guard_kernel(srv)
     emit("kernel:ConnectionGuard", "kernel", bs, viol, reach, bad, "ConnectionGuard::new(limit) holds exactly `limit` slots and reports `limit` as its maximum; try_acquire takes a slot iff one is free",
          "all usize limits", "guard-kernel")
@@ -447,7 +453,9 @@ def obligations(tier, seed):
          "try_acquire Some / None x upgrade request or not x handshake ok / failed x protocol switches; every path", "admission")
     b, viol, reach, bad = _http_block(srv)
     emit("order:http-response-future:permit-held-until-answered", "order", b, viol, reach, bad,
-         "the HTTP response future drops the connection state exactly once and only after call_with_service has produced the response", "call ready / still pending", "http-permit")
+         "the HTTP response future - the one hyper drops when the peer goes away - processes the call itself (no task of its own) and drops the connection state exactly once, only "
+         "after call_with_service has produced the response", "call ready / still pending", "http-permit",
+         replay=dict(scenario="c11_http_peer_gone", vars={}, fixed={}, region=z3.BoolVal(True)))
     b, viol, reach, bad = _ws_task(srv)
     emit("prov:ws-connection-task:state-handed-on", "provenance", b, viol, reach, bad,
          "the spawned WebSocket task hands the connection state on to ws::background_task (BackgroundTaskParams.conn) without dropping it; it is dropped when the upgrade fails", "upgrade ok / failed", "ws-task")
